@@ -4,6 +4,6 @@ set -e
 cd "$(dirname "$0")"
 export PYTHONPATH="$PWD:/repo" PYTHONDONTWRITEBYTECODE=1
 # regenerate the tables from /repo's working tree (the checks do this again on every run)
-for g in gen_unicode gen_wordlists gen_consts gen_coins gen_caches; do /venv/bin/python gen/$g.py; done
+for g in gen_unicode gen_wordlists gen_consts gen_coins gen_caches gen_curves; do /venv/bin/python gen/$g.py; done
 cd lean
 lake build BipVerif bipdrv
